@@ -501,6 +501,22 @@ theorem phase_sqrt_strength {K : Type} [Field K] [LinearOrder K] [IsStrictOrdere
   | nil => rfl
   | cons e es ih => simp only [arRun]; rw [arExtrude_scale, ih]
 
+/-- **Phase ∝ sqrt(Cn²) with `Cn_squared` changed on the running layer.**  Each extrusion uses the amplitude in force at
+that time (`arRunLive`; the harness changes `Cn_squared` between extrusions on the layer and on its twin).  If the twin's
+amplitudes are `k` times the layer's throughout and its initial screen is `k` times the layer's, every later screen is. -/
+theorem phase_sqrt_strength_live {K : Type} [CommRing K] (k : K) (W H : Nat) (steps : List (ArStep K × K)) (s : List K) :
+    arRunLive W H (steps.map fun p => (p.1, k * p.2)) (s.map (k * ·)) = (arRunLive W H steps s).map (k * ·) := by
+  induction steps generalizing s with
+  | nil => rfl
+  | cons e es ih => obtain ⟨e, a⟩ := e; simp only [List.map_cons, arRunLive]; rw [arExtrude_scale, ih]
+
+/-- `arRun` is `arRunLive` with a constant amplitude -/
+theorem arRunLive_const {K : Type} [CommRing K] (amp : K) (W H : Nat) (steps : List (ArStep K)) (s : List K) :
+    arRunLive W H (steps.map fun e => (e, amp)) s = arRun W H amp steps s := by
+  induction steps generalizing s with
+  | nil => rfl
+  | cons e es ih => simp only [List.map_cons, arRunLive, arRun, ih]
+
 /-- one row/column element: `A·(k·stencil) + B·rnd·(k·amp) = k·(A·stencil + B·rnd·amp)` -/
 theorem ar_sample_scales {K : Type} [CommRing K] (k amp : K) (A st B rnd : List K) :
     arSample A (st.map (k * ·)) B rnd (k * amp) = k * arSample A st B rnd amp := arSample_scale k amp A st B rnd
